@@ -107,7 +107,7 @@ func (f fixedPick) Pick(n int, label string) int {
 func init() {
 	core.Register(&core.Prop{
 		ID: "C05", Level: "model_checking",
-		Rule: "Exhaustive enumeration over reference-encoded objects decoded by the real decoder. Part 1 (definitions): for each of 5 target structs (1..5 fields mixing int, string, bool, nested struct, []string, map, self pointer): every permutation of the definition's field list x every subset of fields dropped x one extra unknown field at every position carrying each of 13 wire kinds (or none) x field names capitalised or not (quick: 5-field target with <=2 of {drop, extra, capitalise} deviations; thorough: full product). Part 2 (positions): the target class at every position p in 0..40 of the stream's definition table, reached by p structurally distinct dummy classes defined and instantiated as earlier list elements or by p definitions hoisted to the front, instance in short form (p<=15) and long form (every p), with the neighbouring classes instantiated around it. Oracle: each Go field holds exactly the wire value of the same-named wire field, dropped fields are zero, nothing after an unknown field is disturbed, every dummy instance shows the values of its own definition. Distinct by construction.",
+		Rule:        "Exhaustive enumeration over reference-encoded objects decoded by the real decoder. Part 1 (definitions): for each of 5 target structs (1..5 fields mixing int, string, bool, nested struct, []string, map, self pointer): every permutation of the definition's field list x every subset of fields dropped x one extra unknown field at every position carrying each of 13 wire kinds (or none) x field names capitalised or not (quick: 5-field target with <=2 of {drop, extra, capitalise} deviations; thorough: full product). Part 2 (positions): the target class at every position p in 0..40 of the stream's definition table, reached by p structurally distinct dummy classes defined and instantiated as earlier list elements or by p definitions hoisted to the front, instance in short form (p<=15) and long form (every p), with the neighbouring classes instantiated around it. Oracle: each Go field holds exactly the wire value of the same-named wire field, dropped fields are zero, nothing after an unknown field is disturbed, every dummy instance shows the values of its own definition. Distinct by construction.",
 		Assumptions: []string{"unknown-class objects and forward references as unknown-field payloads are part of the alphabet", "the type map binds every dummy wire class name to one Go struct type"},
 		Units: func(tier string) []core.Unit {
 			var us []core.Unit
